@@ -133,18 +133,9 @@ impl Config {
                                             "prefix cannot be null".into(),
                                         ));
                                     }
-                                    yaml::Yaml::String(s) => {
-                                        let mut it = s.split('/');
-                                        let ip =
-                                            it.next().unwrap().parse().map_err(|e| {
-                                                Error::InvalidConfig(format!("{}", e))
-                                            })?; /* TODO: remove unwrap */
-                                        let prefixlen = it.next().unwrap().parse().unwrap();
-                                        prefix = Some(
-                                            erbium_net::Ipv4Subnet::new(ip, prefixlen).map_err(
-                                                |e| Error::InvalidConfig(format!("{}", e)),
-                                            )?,
-                                        );
+                                    yaml::Yaml::String(_) => {
+                                        prefix = Config::parse_subnet(v)
+                                            .map_err(|e| e.annotate("Failed to parse route prefix"))?;
                                     }
                                     e => {
                                         return Err(Error::InvalidConfig(format!(
